@@ -673,7 +673,7 @@ theorem mem_get_isSome (s : Store) (k : Nat) (c : Content) (h : (k, c) ∈ s) : 
   | nil => cases h
   | cons p rest ih =>
     obtain ⟨k', c'⟩ := p
-    simp only [Store.get]
+    simp only [SafeNet.Validate.Store.get]
     by_cases hk : k' = k
     · simp [hk]
     · simp only [hk, if_false]
